@@ -1,4 +1,5 @@
 import VivProofs.SchedEmit
+import VivProofs.SchedReplay
 /-!
 # C12 — the emitted history is a faithful, ordered sequence of state snapshots
 
@@ -113,6 +114,24 @@ theorem emit_times_strict (c : Cfg) (hb : PosBeh c.beh) (t0 : Int) (pids : List 
     calls _ s' hrun hinit (init_inv c t0 pids layers store) hpos
   exact h.1.1
 
+/-- **Every row of every reachable history is a snapshot of the state at its time key**: the row
+emitted at `T` is the flagged part of the state obtained from the initial state by replaying
+exactly the applications that precede it in the log; all of those happened at times `≤ T` and every
+later application at a time `> T` — a row never shows a later update, never misses an earlier one,
+whatever `emit_step` is. -/
+theorem every_row_is_the_state_at_its_time (c : Cfg) (hb : PosBeh c.beh) (t0 : Int) (pids : List Pid)
+    (layers : List (List Sid)) (store : Store) (calls : List (Nat × Bool))
+    (hpos : ∀ cf ∈ calls, 0 < cf.1) (s' : St)
+    (hrun : runCalls c calls (init c t0 pids layers store) = some s')
+    (pre post : List Ev) (T : Int) (row : Store) (hsplit : s'.log = pre ++ Ev.emit T row :: post) :
+    row = emitRow c.flagged (replay store pre) ∧
+    (∀ p t due u, Ev.apply p t due u ∈ pre → t ≤ T) ∧
+    (∀ p t due u, Ev.apply p t due u ∈ post → T < t) := by
+  obtain ⟨_, h2, st, h3, _⟩ := runCalls_rep c hb t0 pids layers store calls hpos s' hrun
+  rw [hsplit] at h2 h3
+  have hs := tw_split pre post T row st h3
+  exact ⟨rowsOK_split _ _ pre post T row h2, hs.1, hs.2⟩
+
 /-- non-vacuity (the F13 witness): timestep 5, emit_step 2, `update(10)`: rows at 0, 5, 10 — one
 each -/
 def exCfg : Cfg :=
@@ -123,6 +142,12 @@ def exCfg : Cfg :=
 example :
     ((runCalls exCfg [(10, true)] (init exCfg 0 [["p"]] [] [("x", 0), ("hidden", 7)])).map
       (fun s => (emitTimes s.log))) = some [0, 5, 10] := by
+  rfl
+
+example :
+    ((runCalls exCfg [(10, true)] (init exCfg 0 [["p"]] [] [("x", 0), ("hidden", 7)])).map
+      (fun s => s.log.filterMap (fun e => match e with | .emit t r => some (t, r) | _ => none))) =
+      some [(0, [("x", 0)]), (5, [("x", 1)]), (10, [("x", 2)])] := by
   rfl
 
 end VivProps.C12
